@@ -271,7 +271,7 @@ class Run(object):
         self.extra = {}
         self.rule = ""
         self.exhaustive = False
-        self.max_violation_lines = 25
+        self.max_violation_lines = int(os.environ.get("VERIF_MAX_VIOLATION_LINES", "25"))
         os.makedirs(os.path.join(OUT, "replays", pid), exist_ok=True)
 
     # -- TLC -------------------------------------------------------------------------------
